@@ -349,3 +349,56 @@ def _stepwise_iteration(c, L, L0):
         "demand-set-to-exactly-the-result-otherwise": c.Implies(result != None, c.And(c.event_at(1) == c.event("store", L.target, "demand", result), sleep_ev(2))),
         "step-then-one-sleep-of-interval": c.Or(sleep_ev(1), sleep_ev(2)),
     }
+
+
+# ---------------------------------------------------------------------------------------- the two table constructors, per table size
+# (all real thresholds, tables of <= 3 entries; larger tables only by the bounded stand-in bounded/c08_tables.py)
+from pyvc.values import VTuple as _VT, VList as _VL, VDict as _VD, SV as _SV
+from pyvc.engine import fresh_val as _fv
+
+
+def _sym_slave(ctx, k):
+    sv = ctx.typed(z3.Const("p_slaves_controller%d" % k, Z.Val), Slave)     # stable names: a counter-model is replayed in a fresh context
+    ctx.assume(z3.And(Z.Val.id(sv.t) > 0, Z.Val.id(sv.t) < ctx.alloc0))
+    ctx.assume_class(sv.t, Slave)
+    ctx.touch(sv)
+    return sv
+
+
+def _mk_switch_init(n):
+    class init:
+        __doc__ = ("DemandSwitch over %d (threshold, controller) pair(s) given in ANY order with ANY real thresholds: the slave table is the pairs sorted by "
+                   "ascending threshold (the representation invariant `ascending` that regulate relies on), every controller is re-targeted to the switch's "
+                   "pool; equal thresholds are rejected (TypeError out of sorted)" % n)
+        body_key = SW + ":DemandSwitch.__init__"
+        new_object = "self"
+        params = {"self": Switch, "target": Pool, "default": Slave,
+                  "*slaves": lambda ctx: _VT([x for k in range(n) for x in (ctx.typed(z3.Const("p_slaves_threshold%d" % k, Z.Val), NumFin), _sym_slave(ctx, k))]), "interval": NumFin}
+        has_events = True
+
+        def requires(c, self, target, default, slaves, interval):
+            ctls = [slaves[2 * k + 1] for k in range(n)]
+            distinct = [ctls[a].t != ctls[b].t for a in range(n) for b in range(a + 1, n)] + [x.t != default.t for x in ctls]
+            free = [c.Or(x.target.is_none if hasattr(x.target, "is_none") else Z.is_none(x.target.t), x.target.t == target.t) for x in ctls + [default]]
+            return c.And(*distinct, *free)
+
+        def writes(c, self, target, default, slaves, interval):
+            return [(self, f) for f in ("target", "_default", "_slaves", "interval")] + [("all", "target", lambda x: True)]
+
+        def ensures(c, self, target, default, slaves, interval):
+            tbl = self._slaves
+            ths = [slaves[2 * k] for k in range(n)]
+            ctls = [slaves[2 * k + 1] for k in range(n)]
+            facts = {"the-table-has-one-entry-per-pair": tbl.len == n,
+                     "thresholds-ascend-strictly": ascending(c, tbl),
+                     "every-pair-is-in-the-table-with-its-own-controller": c.And(*[c.Or(*[c.And(thr(tbl, j).same(ths[k]), ctl(tbl, j).t == ctls[k].t) for j in range(n)]) for k in range(n)]) if n else True,
+                     "all-controllers-target-the-switchs-pool": c.And(default.target.t == target.t, *[x.target.t == target.t for x in ctls]),
+                     "configured": c.And(self._default.t == default.t, self.target.t == target.t, self.interval.same(interval))}
+            return facts
+
+        raises = {"TypeError": lambda c, self, target, default, slaves, interval, exc: c.Or(*[slaves[2 * a].r == slaves[2 * b].r for a in range(n) for b in range(a + 1, n)]) if n > 1 else False}
+    return init
+
+
+for _n in (0, 1, 2, 3):
+    contract(SW + ":DemandSwitch.__init__#pairs(%d)" % _n, props=["C08"])(_mk_switch_init(_n))
